@@ -4,7 +4,7 @@
    bound to these models by the per-run correspondence only. *)
 From Coq Require Import List Bool Arith ZArith Reals.
 From Flocq Require Import Core.Core IEEE754.BinarySingleNaN.
-From VV Require Import Lib.B64 C10.Model C10.Proofs C10.Floats C10.Apollo C10.ApolloProofs.
+From VV Require Import Lib.B64 C10.Model C10.Proofs C10.Floats C10.Apollo C10.ApolloProofs C10.Check.
 Import ListNotations.
 
 (* one axis, rows "a - b" that follow each other, printed in either order: after
